@@ -54,8 +54,12 @@ class C17(Prop):
             call_good = G.op_match_doc(api, 1, test, doc, "string", good_ms)
             if pre_exists:
                 ops += [call_good, call_good, G.op_end(test), {"op": "newprocess"}, G.op_newconfig(dir=b"d", upd=upd)]
-            ops += [G.op_setenv(env[0], env[1]), {"op": "dumpfs"}, call_bad, {"op": "dumpfs"}, call_good, G.op_end(test), {"op": "dumpfs"}]
-            cases.append({"ci": False, "updvar": "unset", "colour": False, "ops": ops, "meta": {"fail": fail, "api": api, "pre": pre_exists}})
+            # re-execution variant: the execution whose ONLY call failed ends, the test runs again in the same process
+            # (go test -count=2 / a retry wrapper): the good call is then call #1 of a new execution
+            reexec = r.chance(1, 4)
+            mid = [G.op_end(test)] if reexec else []
+            ops += [G.op_setenv(env[0], env[1]), {"op": "dumpfs"}, call_bad, {"op": "dumpfs"}] + mid + [call_good, G.op_end(test), {"op": "dumpfs"}]
+            cases.append({"ci": False, "updvar": "unset", "colour": False, "ops": ops, "meta": {"fail": fail, "api": api, "pre": pre_exists, "reexec": reexec}})
         return cases
 
     def oracle(self, case, ops, results):
@@ -84,18 +88,21 @@ class C17(Prop):
             if not o["outcome"].startswith("failed:") or o["errors"] != "1" or o["writes"] != "-" or fss[0][2] != fss[1][2]:
                 fails.append({"msg": "obs %d: matchers failed but outcome=%s errors=%s writes=%s dir-changed=%s"
                               % (bad[2], o["outcome"], o["errors"], o["writes"], fss[0][2] != fss[1][2])})
-            # the following good call must address slot/file 2 of this execution
+            # the following good call must address slot/file 2 of this execution (slot/file 1 of the NEXT execution when the
+            # test ended in between)
+            ended_between = any(x[0] == "endtest" for x in seq[seq.index(bad) + 1: seq.index(good)])
+            k_ = b"1" if ended_between else b"2"
             og = good[3]
             if og["outcome"] in ("added", "updated"):
                 after = fss[2][2]
                 if case["meta"]["api"] == "standjson":
-                    if not any(unhx(p).endswith(b"_2.snap.json") for p in after if after[p] != fss[1][2].get(p)):
-                        fails.append({"msg": "obs %d: the call after a failing one did not write file 2" % good[2]})
+                    if not any(unhx(p).endswith(b"_" + k_ + b".snap.json") for p in after if after[p] != fss[1][2].get(p)):
+                        fails.append({"msg": "obs %d: the call after a failing one did not write file %s" % (good[2], k_.decode())})
                 else:
                     changed = [p for p in after if after[p] != fss[1][2].get(p)]
-                    want = b"[" + unhx(good[1]["test"]) + b" - 2]"
+                    want = b"[" + unhx(good[1]["test"]) + b" - " + k_ + b"]"
                     if not any(want in unhx(after[p]) for p in changed):
-                        fails.append({"msg": "obs %d: the call after a failing one did not write slot 2" % good[2]})
+                        fails.append({"msg": "obs %d: the call after a failing one did not write slot %s" % (good[2], k_.decode())})
             elif case["meta"]["pre"] and og["outcome"] != "passed" and not og["outcome"].startswith("failed:notfound"):
                 fails.append({"msg": "obs %d: the call after a failing one lost its slot: %s" % (good[2], og["outcome"])})
         return fails
